@@ -112,7 +112,7 @@ EXTRA = {
     "C05": " Later additions: array-valued parameters (also > 1000 entries, sparse, large Hermitian), parameters held by torch / jax / autograd with and without backprop, observable-coefficient and control-order near-duplicates, size-one broadcasts, tapes derived with copy / qp.map_wires from fingerprinted tape objects, finite-shot siblings whose shot count continues the trainable indices, parameter sweeps through one reused buffer.",
     "C41": " Later additions: stop_recording as a decorator on a re-entrant helper, library templates using it, function forms of wrappers (prod / adjoint / ctrl of a function), make_qscript inside a context, apply(context=...), bodies conditioned on a mid-circuit measurement.",
     "C64": " Later additions: workload-aware fault placement (resolved by a fault-free dry run), in-place edits of list / dict attributes, containers compared by index and by iteration, molecules, nested datasets stored again and edited from the inside, dict keys with percent escapes.",
-    "C29": " Later additions: (shots, copies) specifications and non-adjacent repeats, a nine-wire case, requests routed through measurements_from_samples / _counts for Pauli words and wire measurements, and -- for the JAX generator only, where a bypassed choice seam would otherwise pass silently -- observation of the device's real draws (per-bin goodness of fit, first half vs second half; reported separately).",
+    "C29": " Later additions: (shots, copies) specifications and non-adjacent repeats, a nine-wire case, one raw register of decided shots answered through process_counts / process_samples for Z-basis requests, and -- for the JAX generator only, where a bypassed choice seam would otherwise pass silently -- observation of the device's real draws (per-bin goodness of fit, first half vs second half; reported separately).",
     "C21": " Later additions: tree-traversal with shots derives the per-history shot counts from the decided draws and checks every measurement-value statistic and every expval / var / probs of an ordinary observable as the function of those draws; new mode for deferred measurements with shots (postselection thinning chain decided by the simulator).",
     "C22": " Later additions: any-state scratch scopes left dirty, restored->any->zero chains, an idle measured static wire on the device path, histories built through qp.allocate / qp.deallocate and the register's context-manager protocol, plain-string states, the same configured registers used for two applications.",
     "C13": " Later additions: work wires requested in the zero state must end in ONE state for every history and input; wires a rule requests in \"any\" state are handed over in a random state; random QROM tables against an independently written ideal action.",
